@@ -508,33 +508,64 @@ func (h *histRun) checkAccessCurrency() {
 			return out
 		}
 		stale := func(name string, useT, sentT int64, wantCall string) (string, bool) {
-			var last *grant
+			// Any access answer received before the use may be the one used
+			// (concurrent requests each make their own check): the use is
+			// fine if one of them grants and is not older than an
+			// invalidating trigger absorbed before the request was sent.
 			gs := grants[name]
+			any, granting, valid, raced := false, false, false, false
 			for i := range gs {
-				if gs[i].done < useT && (last == nil || gs[i].ans > last.ans) {
-					last = &gs[i]
+				if gs[i].ans >= useT {
+					continue // chosen after the use (ans is stamped before the callback runs)
 				}
-			}
-			if last == nil {
-				return "noGrant", true
-			}
-			if wantCall == "" && !last.get {
-				return "usedDenial", true
-			}
-			if wantCall != "" && !refCanCall(last.call, wantCall) {
-				return "callNotGranted", true
-			}
-			for _, tt := range triggers(name) {
-				if tt <= last.ans {
+				any = true
+				ok := gs[i].get
+				if wantCall != "" {
+					ok = refCanCall(gs[i].call, wantCall)
+				}
+				if !ok {
 					continue
 				}
-				for _, q := range h.qpoints {
-					if q > tt && q < sentT {
-						return "staleGrant", true
+				granting = true
+				fresh := true
+				for _, tt := range triggers(name) {
+					if tt <= gs[i].ans {
+						continue
+					}
+					for _, q := range h.qpoints {
+						if q > tt && q < sentT {
+							fresh = false
+						}
+					}
+					// the trigger followed the answer with no quiescent point in
+					// between: the answer may have been processed after the trigger
+					sep := false
+					for _, q := range h.qpoints {
+						if q > gs[i].ans && q < tt {
+							sep = true
+						}
+					}
+					if !sep {
+						raced = true
 					}
 				}
+				if fresh {
+					valid = true
+				}
 			}
-			return "", false
+			switch {
+			case valid:
+				return "", false
+			case !any:
+				return "noGrant", true
+			case granting && raced:
+				return "staleGrant.answerRacedTrigger", true
+			case granting:
+				return "staleGrant", true
+			case wantCall != "":
+				return "callNotGranted", true
+			}
+			return "usedDenial", true
 		}
 		sentByID := map[uint64]SentReq{}
 		for _, s := range c.Sent() {
